@@ -1,5 +1,6 @@
 import PlumVerif.Proofs.ConnClose
 import PlumVerif.Proofs.ConnTime
+import PlumVerif.Proofs.ConnFrames
 /-
 C11 — connection loss is detected, announced once, and fully recovered by reconnect.
 
@@ -94,37 +95,40 @@ theorem write_timeout_detected {s : St} (h : Reachable s) (hcl : isDone s.closin
 /-- an OS error while writing a queued frame (when the next frame arrives and the producer
 turns to the write queue) -/
 theorem write_error_detected {s : St} (h : Reachable s) (hcl : isDone s.closing = false)
-    (hp : s.producers > 0) (hr : isReading s.pphase = true) (hk : s.consumers > 0)
+    (hp : s.producers > 0) (hr : isReading s.pphase = true)
     (k : Nat) (rest : List Nat) (hq : s.writeQ = k :: rest) (tid : Nat) (hw : s.writer = some tid)
     (hd : s.wdrain = .raise) (f : Feed) : Detected s (step s (.feed f)).1 := by
   obtain ⟨hc, h1, hl⟩ := producer_alive h hp
-  have hk' : s.consumers ≠ 0 := by omega
-  have hh := same_handle (prodIO s).1 f
   have hl' := same_latch (prodIO' s).1
   have hio : (prodIO' s).1 = (prodFault { s with writeQ := rest }).1 := by
     simp [prodIO', hq, hw, hd]
-  have e : (step s (.feed f)).1 = (handle (prodIO s).1 f).1 := by
-    simp [step, hcl, feed, h1, hr, hk']
-  rw [e]
+  have hfr : ∀ x : St, x = (step s (.feed f)).1 →
+      x.producers = (prodIO s).1.producers ∧ x.lostPending = (prodIO s).1.lostPending ∧ x.connected = (prodIO s).1.connected := by
+    intro x hx
+    have e : (step s (.feed f)).1 = (feed s f).1 := by simp [step, hcl]
+    rw [hx, e]
+    simp only [feed, h1, hr]
+    simp only [Nat.succ_ne_self, Bool.not_true, Bool.false_eq_true, or_self, ↓reduceIte]
+    split <;> exact ⟨rfl, rfl, rfl⟩
+  obtain ⟨f1, f2, f3⟩ := hfr _ rfl
   refine ⟨h1, hl, ?_, ?_, ?_⟩
-  · rw [hh.producers]; show (latch (prodIO' s).1).producers = 0
+  · rw [f1]; show (latch (prodIO' s).1).producers = 0
     rw [hl'.producers, hio]; simp [prodFault, h1]
-  · rw [hh.lostPending]; show (latch (prodIO' s).1).lostPending = true
+  · rw [f2]; show (latch (prodIO' s).1).lostPending = true
     rw [hl'.lostPending, hio]; rfl
-  · rw [hh.connected]; show (latch (prodIO' s).1).connected = true
+  · rw [f3]; show (latch (prodIO' s).1).connected = true
     rw [hl'.connected, hio]; exact hc
-
 
 /-! ### handling: announced once, closed once, reconnect invoked once -/
 
 /-- **first half of the loss handling** (`connection_lost` runs): the flag is cleared first
 (every callback sees `connected` already cleared: third component `false`), then every known
 device is told `connected=False` exactly once (the list of such outputs is exactly one entry
-per device, in device order); the handler is no longer pending -/
+per device of the device map, in order); the handler is no longer pending -/
 theorem loss_announced_once {s : St} (h : Reachable s) (hcl : early s.closing = true) (hl : s.lostPending = true) :
     (step s .lostRun).1.lostPending = false ∧
-    (step s .lostRun).2.filter isAnnFalse = s.devices.map (fun d => Out.ann d.addr false false) ∧
-    (s.devices ≠ [] → (step s .lostRun).1.connected = false ∧ (step s .lostRun).1.lostMid = true) := by
+    (step s .lostRun).2.filter isAnnFalse = (published s).map (fun d => Out.ann d.addr false false) ∧
+    (published s ≠ [] → (step s .lostRun).1.connected = false ∧ (step s .lostRun).1.lostMid = true) := by
   have hi := h.inv
   have hnd : isDone s.closing = false := by cases hc : s.closing <;> simp_all [early, isDone]
   have hc : s.connected = true := by
@@ -132,10 +136,10 @@ theorem loss_announced_once {s : St} (h : Reachable s) (hcl : early s.closing = 
     · have := hi.disc_lp hc; simp [this] at hl
     · rfl
   have hfl : (annAll { s with lostPending := false, connected := false } false false).filter isAnnFalse
-      = s.devices.map (fun d => Out.ann d.addr false false) := by
+      = (published s).map (fun d => Out.ann d.addr false false) := by
     unfold annAll
-    simp only []
-    induction s.devices with
+    show List.filter isAnnFalse (List.map _ (published s)) = _
+    induction published s with
     | nil => rfl
     | cons d ds ih => simp [List.filter_cons, isAnnFalse, ih]
   simp only [step, hnd, lostRun, hl, hc]
@@ -261,7 +265,8 @@ theorem failed_open_backs_off (s : St) (o : Owner) (rest : List OpenRes) (hs : s
 
 /-- an attempt that hangs is abandoned after CONNECT_TIMEOUT and then backs off the same way -/
 theorem hung_open_times_out (s : St) (o : Owner) (rest : List OpenRes) (hs : s.script = .hang :: rest) :
-    (doOpen s o).1.recon = .attempting (s.now + connectTO) o ∧ (doOpen s o).2 = [.openCall 2] := by
+    (doOpen s o).1.recon = .attempting (s.now + connectTO) o ∧ (doOpen s o).2 = [.openCall 2] ∧
+    (doOpen s o).1.script = rest := by
   simp [doOpen, popScript, hs]
 
 theorem open_timeout_backs_off (s : St) (hnd : isDone s.closing = false) (dl : Nat) (o : Owner)
@@ -330,9 +335,9 @@ theorem reestablished (s : St) (o : Owner) (dm cm : Mode) (rest : List OpenRes)
     r.1.connected = true ∧ r.1.writeQ = s.writeQ ++ [25] ∧ r.1.devices = s.devices ∧
     r.1.producers = s.producers + 1 ∧ r.1.consumers = s.cfg ∧ r.1.recon = .idle ∧
     r.1.writer = some s.nextTid ∧ r.1.wopen = true ∧
-    r.2 = .openCall 0 :: s.devices.map (fun d => Out.ann d.addr true true) ∧
+    r.2 = .openCall 0 :: (published s).map (fun d => Out.ann d.addr true true) ∧
     r.1.script = rest ∧ r.1.now = s.now := by
-  simp only [doOpen, popScript, hs, establish, annAll, startMaster_eq]
+  simp only [doOpen, popScript, hs, establish, annAll, startMaster_eq, published]
   simp
   omega
 
@@ -359,6 +364,90 @@ theorem producer_sends_head (s : St) (k : Nat) (rest : List Nat) (tid : Nat) (hq
   simp only [prodIO, hl]
   simp only [prodIO', hq, hw]
   split <;> exact ⟨rfl, rfl⟩
+
+/-- a producer that is reading, on a transport that accepts writes -/
+structure Sending (s : St) (tid : Nat) : Prop where
+  notDone : isDone s.closing = false
+  prod : s.producers > 0
+  reading : isReading s.pphase = true
+  drain : s.wdrain = .ok
+  writer : s.writer = some tid
+
+theorem sending_feed {s : St} {tid : Nat} (h : Sending s tid) (k : Nat) (rest : List Nat) (hq : s.writeQ = k :: rest) :
+    (step s (.feed .foreign)).2 = [.tx tid k] ∧ (step s (.feed .foreign)).1.writeQ = rest ∧
+    Sending (step s (.feed .foreign)).1 tid := by
+  have hp0 : s.producers ≠ 0 := by have := h.prod; omega
+  have hio : prodIO' s = ({ s with writeQ := rest, pphase := .reading (s.now + readerTO) }, [.tx tid k]) := by
+    simp [prodIO', hq, h.writer, h.drain]
+  have e : step s (.feed .foreign) = (latch { s with writeQ := rest, pphase := .reading (s.now + readerTO) }, [.tx tid k]) := by
+    simp [step, h.notDone, feed, hp0, h.reading, prodIO, hio, Feed.addr?]
+  rw [e]
+  have hl := same_latch { s with writeQ := rest, pphase := .reading (s.now + readerTO) }
+  have hfield : ∀ x : St, (latch x).writeQ = x.writeQ ∧ (latch x).pphase = x.pphase ∧ (latch x).wdrain = x.wdrain ∧
+      (latch x).writer = x.writer ∧ (isDone x.closing = false → isDone (latch x).closing = false) := by
+    intro x; unfold latch; split
+    · split
+      · exact ⟨rfl, rfl, rfl, rfl, fun _ => rfl⟩
+      · exact ⟨rfl, rfl, rfl, rfl, id⟩
+    · exact ⟨rfl, rfl, rfl, rfl, id⟩
+  obtain ⟨f1, f2, f3, f4, f5⟩ := hfield { s with writeQ := rest, pphase := .reading (s.now + readerTO) }
+  refine ⟨rfl, f1, ⟨f5 h.notDone, ?_, ?_, ?_, ?_⟩⟩
+  · rw [hl.producers]; exact h.prod
+  · rw [f2]; rfl
+  · rw [f3]; exact h.drain
+  · rw [f4]; exact h.writer
+
+/-- one write per received frame, in queue order -/
+theorem writes_in_order : ∀ (q : List Nat) (s : St) (tid : Nat), Sending s tid → s.writeQ = q →
+    outs (run s (List.replicate q.length (.feed .foreign))) = q.map (fun k => Out.tx tid k) ∧
+    (run s (List.replicate q.length (.feed .foreign))).1.writeQ = []
+  | [], s, tid, _, hq => ⟨rfl, hq⟩
+  | k :: rest, s, tid, h, hq => by
+    obtain ⟨o1, o2, o3⟩ := sending_feed h k rest hq
+    obtain ⟨i1, i2⟩ := writes_in_order rest (step s (.feed .foreign)).1 tid o3 o2
+    simp only [List.length_cons, List.replicate_succ, List.map_cons]
+    constructor
+    · rw [outs_run_cons, o1, i1]; rfl
+    · simpa [run] using i2
+
+/-- **the start-master request IS sent after re-establishment, with the bound**: with `k`
+requests left over from before (queued ahead of it, `reestablished`), the new producer writes
+one of them at once and one per frame received afterwards; the start-master request goes out
+on the new transport when the `k`-th frame after the re-establishment arrives - as the `k+1`-th
+frame of that transport, after exactly the left-over requests, in order -/
+theorem start_master_sent_after_k_frames (s : St) (tid : Nat) (q : List Nat) (hnd : isDone s.closing = false)
+    (hp : s.producers > 0) (hph : s.pphase = .starting) (hd : s.wdrain = .ok) (hw : s.writer = some tid)
+    (hq : s.writeQ = q ++ [25]) :
+    outs (run s (.prodStart :: List.replicate q.length (.feed .foreign))) = (q ++ [25]).map (fun k => Out.tx tid k) := by
+  obtain ⟨k, rest, hkr⟩ : ∃ k rest, q ++ [25] = k :: rest := by
+    cases q with
+    | nil => exact ⟨25, [], rfl⟩
+    | cons a b => exact ⟨a, b ++ [25], rfl⟩
+  have hlen : rest.length = q.length := by
+    have := congrArg List.length hkr
+    simp at this; omega
+  have hq' : s.writeQ = k :: rest := by rw [hq, hkr]
+  have hio : prodIO' s = ({ s with writeQ := rest, pphase := .reading (s.now + readerTO) }, [.tx tid k]) := by
+    simp [prodIO', hq', hw, hd]
+  have e : step s .prodStart = (latch { s with writeQ := rest, pphase := .reading (s.now + readerTO) }, [.tx tid k]) := by
+    simp [step, hnd, hp, hph, prodIO, hio]
+  have hfield : ∀ x : St, (latch x).writeQ = x.writeQ ∧ (latch x).pphase = x.pphase ∧ (latch x).wdrain = x.wdrain ∧
+      (latch x).writer = x.writer ∧ (isDone x.closing = false → isDone (latch x).closing = false) := by
+    intro x; unfold latch; split
+    · split
+      · exact ⟨rfl, rfl, rfl, rfl, fun _ => rfl⟩
+      · exact ⟨rfl, rfl, rfl, rfl, id⟩
+    · exact ⟨rfl, rfl, rfl, rfl, id⟩
+  obtain ⟨f1, f2, f3, f4, f5⟩ := hfield { s with writeQ := rest, pphase := .reading (s.now + readerTO) }
+  have hl := same_latch { s with writeQ := rest, pphase := .reading (s.now + readerTO) }
+  have hs : Sending (step s .prodStart).1 tid := by
+    rw [e]
+    exact ⟨f5 hnd, by rw [hl.producers]; exact hp, by rw [f2]; rfl, by rw [f3]; exact hd, by rw [f4]; exact hw⟩
+  have hwq : (step s .prodStart).1.writeQ = rest := by rw [e]; exact f1
+  obtain ⟨i1, _⟩ := writes_in_order rest (step s .prodStart).1 tid hs hwq
+  rw [outs_run_cons, e, ← hlen]
+  rw [e] at i1
+  rw [i1, hkr]; rfl
 
 /-! ### retried until one succeeds -/
 
@@ -465,6 +554,121 @@ theorem retry_until_success (dm cm : Mode) (rest : List OpenRes) :
       rw [← run_append, houts, nOpen_append, i4, r2, f2]
       simp [nOpen, isOpenCall]; omega
 
+/-- what the modelled scheduler does while every attempt hangs: wait for the back-off deadline,
+the routine calls `_open_connection`, CONNECT_TIMEOUT later the attempt is abandoned -/
+def hungEvs : Nat → Nat → List Ev
+  | w, 0 => [.advance w, .tick .backoffEnd]
+  | w, k + 1 => [.advance w, .tick .backoffEnd, .advance connectTO, .tick .openTO] ++ hungEvs reconnectTO k
+
+/-- **retried until one succeeds, hung attempts**: with `k` more attempts that hang (no answer
+within CONNECT_TIMEOUT) scripted before a successful one, the routine calls `_open_connection`
+`k+1` more times, each `CONNECT_TIMEOUT + RECONNECT_TIMEOUT` after the previous one, and the
+connection is re-established `k · (CONNECT_TIMEOUT + RECONNECT_TIMEOUT)` after the pending back-off ends -/
+theorem retry_until_success_hung (dm cm : Mode) (rest : List OpenRes) :
+    ∀ (k : Nat) (s : St) (dl : Nat) (o : Owner), Reachable s → early s.closing = true → s.recon = .backoff dl o →
+    NoSetupTimers s → s.script = List.replicate k .hang ++ (.ok dm cm :: rest) →
+    (run s (hungEvs (dl - s.now) k)).1.connected = true ∧
+    (run s (hungEvs (dl - s.now) k)).1.script = rest ∧
+    (run s (hungEvs (dl - s.now) k)).1.now = dl + k * (connectTO + reconnectTO) ∧
+    nOpen (outs (run s (hungEvs (dl - s.now) k))) = k + 1 := by
+  intro k
+  induction k with
+  | zero =>
+    intro s dl o h he hr hns hsc
+    obtain ⟨r1, r2⟩ := retry_round h he dl o hr hns
+    have hsa : ({ s with now := dl, recon := .idle } : St).script = .ok dm cm :: rest := by simpa using hsc
+    have hev : hungEvs (dl - s.now) 0 = [.advance (dl - s.now), .tick .backoffEnd] := rfl
+    rw [hev, r1, r2]
+    have hre := reestablished { s with now := dl, recon := .idle } .conn dm cm rest hsa h.inv.cons_le
+    simp only at hre
+    obtain ⟨c1, _, _, _, _, _, _, _, _, c10, c11⟩ := hre
+    exact ⟨c1, c10, by rw [c11]; simp, (doOpen_counts _ _).1⟩
+  | succ k ih =>
+    intro s dl o h he hr hns hsc
+    obtain ⟨r1, r2⟩ := retry_round h he dl o hr hns
+    have hsa : ({ s with now := dl, recon := .idle } : St).script = .hang :: (List.replicate k .hang ++ (.ok dm cm :: rest)) := by
+      simpa [List.replicate_succ] using hsc
+    obtain ⟨g1, g2, g3⟩ := hung_open_times_out { s with now := dl, recon := .idle } .conn _ hsa
+    have hev : hungEvs (dl - s.now) (k + 1)
+        = [.advance (dl - s.now), .tick .backoffEnd] ++ ([.advance connectTO, .tick .openTO] ++ hungEvs reconnectTO k) := rfl
+    let a := (run s [.advance (dl - s.now), .tick .backoffEnd]).1
+    have ha : a = (doOpen { s with now := dl, recon := .idle } .conn).1 := r1
+    have hra : Reachable a := h.run _
+    have hanow : a.now = dl := by rw [ha]; exact (rs_doOpen _ _).now
+    have harec : a.recon = .attempting (dl + connectTO) .conn := by rw [ha]; exact g1
+    have hacl : a.closing = s.closing := by rw [ha, (samep_doOpen _ _).closing]
+    have hand : isDone a.closing = false := by rw [hacl]; cases hc : s.closing <;> simp_all [early, isDone]
+    have hadev : a.devices = s.devices := by rw [ha]; exact doOpen_devices _ _
+    have hans : NoSetupTimers a := by intro d hd; rw [hadev] at hd; exact hns d hd
+    have hasc : a.script = List.replicate k .hang ++ (.ok dm cm :: rest) := by
+      rw [ha]; exact g3
+    have hai := hra.inv
+    have hadc : a.connected = false := by
+      cases hc : a.connected
+      · rfl
+      · have := hai.conn_recon hc; rw [harec] at this; cases this
+    have hap := hai.disc_prod hadc
+    -- the attempt hangs until CONNECT_TIMEOUT
+    have e1 : step a (.advance connectTO) = ({ a with now := a.now + connectTO }, []) := by
+      apply advance_ok a _ hand
+      intro kk d hk
+      cases kk with
+      | readTO => simp [deadline?, hap] at hk
+      | writeTO => simp [deadline?, hap] at hk
+      | wcloseTO => simp [deadline?, harec] at hk
+      | openTO =>
+        simp only [deadline?, harec] at hk
+        have : dl + connectTO = d := by simpa using hk
+        omega
+      | backoffEnd => simp [deadline?, harec] at hk
+      | setup x => rw [setup_timer_none hans x] at hk; simp at hk
+      | cwcloseTO => rw [← hacl] at he; cases hc : a.closing <;> simp_all [deadline?, early]
+    let b : St := { a with now := a.now + connectTO }
+    have hbr : b.recon = .attempting (dl + connectTO) .conn := harec
+    have hbn : b.now = dl + connectTO := by show a.now + connectTO = _; rw [hanow]
+    have e2 := open_timeout_backs_off b hand (dl + connectTO) .conn hbr (by rw [hbn]; exact Nat.le_refl _) (by simp)
+    let c := (step b (.tick .openTO)).1
+    have hc2 : c = (run a [.advance connectTO, .tick .openTO]).1 := by simp only [run, e1]; rfl
+    have hrc : Reachable c := by rw [hc2]; exact hra.run _
+    have hcrec : c.recon = .backoff (dl + connectTO + reconnectTO) .conn := by
+      show (step b (.tick .openTO)).1.recon = _; rw [e2, hbn]
+    have hstep : (step b (.tick .openTO)) = (openFailed { b with recon := .idle } .conn) := by
+      have h1 : ¬ b.now < dl + connectTO := by rw [hbn]; omega
+      have hbd : isDone b.closing = false := hand
+      simp [step, hbd, fire, deadline?, hbr, h1]
+    have hcf : c = (openFailed { b with recon := .idle } .conn).1 := by show (step b (.tick .openTO)).1 = _; rw [hstep]
+    have hof : ∀ x : St, (openFailed x .conn).1.now = x.now ∧ (openFailed x .conn).1.closing = x.closing ∧
+        (openFailed x .conn).1.devices = x.devices ∧ (openFailed x .conn).1.script = x.script ∧
+        nOpen (openFailed x .conn).2 = 0 := by
+      intro x; unfold openFailed; split <;> simp [nOpen, isOpenCall]
+    obtain ⟨q1, q2, q3, q4, q5⟩ := hof { b with recon := .idle }
+    have hcnow : c.now = dl + connectTO := by rw [hcf, q1]; exact hbn
+    have hccl : early c.closing = true := by rw [hcf, q2]; show early a.closing = true; rw [hacl]; exact he
+    have hcns : NoSetupTimers c := by intro d hd; rw [hcf, q3] at hd; exact hans d hd
+    have hcsc : c.script = List.replicate k .hang ++ (.ok dm cm :: rest) := by rw [hcf, q4]; exact hasc
+    have hw : dl + connectTO + reconnectTO - c.now = reconnectTO := by rw [hcnow]; omega
+    have ih' := ih c (dl + connectTO + reconnectTO) .conn hrc hccl hcrec hcns hcsc
+    rw [hw] at ih'
+    obtain ⟨i1, i2, i3, i4⟩ := ih'
+    have hrunc : (run a ([.advance connectTO, .tick .openTO] ++ hungEvs reconnectTO k)).1 = (run c (hungEvs reconnectTO k)).1 := by
+      rw [run_append, ← hc2]
+    have houtc : outs (run a ([.advance connectTO, .tick .openTO] ++ hungEvs reconnectTO k))
+        = (step b (.tick .openTO)).2 ++ outs (run c (hungEvs reconnectTO k)) := by
+      rw [run_append]
+      simp only [outs, run, e1, List.map_append, List.map_nil, List.nil_append, List.append_nil, List.map_map]
+      simp [Function.comp_def, hc2, run, e1]
+      rfl
+    rw [hev, run_append]
+    refine ⟨?_, ?_, ?_, ?_⟩
+    · show (run a _).1.connected = true; rw [hrunc]; exact i1
+    · show (run a _).1.script = rest; rw [hrunc]; exact i2
+    · show (run a _).1.now = _; rw [hrunc, i3, Nat.add_mul, Nat.one_mul]; omega
+    · have houts : outs (run s ([Ev.advance (dl - s.now), Ev.tick Timer.backoffEnd] ++ ([.advance connectTO, .tick .openTO] ++ hungEvs reconnectTO k)))
+          = outs (run s [.advance (dl - s.now), .tick .backoffEnd]) ++ outs (run a ([.advance connectTO, .tick .openTO] ++ hungEvs reconnectTO k)) := by
+        rw [run_append]; simp [outs, a]
+      rw [← run_append, houts, nOpen_append, r2, g2, houtc, nOpen_append, i4, hstep, q5]
+      simp [nOpen, isOpenCall]; omega
+
 /-! ### frames reach the same device objects as before -/
 
 /-- **the device map is unchanged by loss and reconnect** (by anything, in fact): along every
@@ -483,6 +687,256 @@ theorem known_device_not_recreated (s : St) (a : Nat) (h : hasDev s.devices a = 
     · intro d; rfl
 
 
+/-- **one device object per address**: the device map never holds two entries for one address -/
+theorem one_device_per_address {s : St} (h : Reachable s) : (addrs s).Nodup := h.nodup
+
+/-- **object identity**: device objects are identified by their position in the device map (the
+order of creation); a device known in `s` keeps its position along every run - together with
+`one_device_per_address` the entry for an address is the same object for ever, whatever losses
+and reconnects happen -/
+theorem device_identity_stable (s : St) (es : List Ev) (a : Nat) (ha : a ∈ addrs s) :
+    (addrs (run s es).1).idxOf a = (addrs s).idxOf a := by
+  obtain ⟨t, ht⟩ := addrs_run s es
+  rw [← ht]
+  rw [List.idxOf_append]; simp [ha]
+
+/-- **connected=False exactly once per loss and device, over whole histories**: along any run
+without close(), for every device: (number of times it is told connected=False) + (handlings
+half done at the start) ≤ (transports closed) + (handlings half done at the end); with
+`one_close_per_loss` (closes = faults handled) no device is ever told False twice for one loss,
+and `loss_announced_once` says every device of the map is told once -/
+theorem one_announce_per_loss_per_device {s : St} (h : Reachable s) (hcl : s.closing = .no) (es : List Ev)
+    (hne : Ev.close ∉ es) (a : Nat) :
+    nAnnF a (outs (run s es)) + lmN s ≤ nWclose (outs (run s es)) + lmN (run s es).1 := by
+  induction es generalizing s with
+  | nil => simp [outs, run, nAnnF, nWclose]
+  | cons e es ih =>
+    have hne1 : e ≠ .close := fun he => hne (he ▸ List.mem_cons_self ..)
+    have hne2 : Ev.close ∉ es := fun he => hne (List.mem_cons_of_mem _ he)
+    have b := step_announce h.inv h.winv h.nodup hcl e hne1 a
+    have hb := step_balance h.inv h.winv hcl e hne1
+    have hr : Reachable (step s e).1 := by have := h.run [e]; simpa [run] using this
+    have i := ih hr (by rw [hb.closing, hcl]) hne2
+    rw [outs_run_cons, nAnnF_append, nWclose_append]
+    have : (run s (e :: es)).1 = (run (step s e).1 es).1 := by simp [run]
+    rw [this]
+    omega
+
+theorem rcOn_run (s : St) (es : List Ev) : (run s es).1.rcOn = s.rcOn := by
+  have one : ∀ (t : St) (e : Ev), (step t e).1.rcOn = t.rcOn := by
+    intro t e
+    have hfr : ∀ x y : St, Frames x y → y.rcOn = x.rcOn := fun _ _ f => f.rcOn
+    unfold step
+    split
+    · split <;> rfl
+    · have hdo : ∀ (x : St) (o : Owner), (doOpen x o).1.rcOn = x.rcOn := by
+        intro x o
+        have hp : (popScript x).2.rcOn = x.rcOn := by unfold popScript; split <;> rfl
+        simp only [doOpen]
+        split
+        · exact hp
+        · unfold openFailed; split <;> exact hp
+        · exact hp
+      have hri : ∀ x : St, (reconnectInvoke x).1.rcOn = x.rcOn := by
+        intro x; unfold reconnectInvoke; split
+        · exact hdo x _
+        · rfl
+      have hlf : ∀ x : St, (lostFinish x).1.rcOn = x.rcOn := by
+        intro x
+        simp only [lostFinish, closeWriter_fst'']
+        split
+        · rfl
+        · exact hri _
+      have hla : ∀ x : St, (latch x).rcOn = x.rcOn := by
+        intro x; unfold latch; split
+        · split <;> rfl
+        · rfl
+      have hpi : ∀ x : St, (prodIO x).1.rcOn = x.rcOn := by
+        intro x
+        simp only [prodIO, hla]
+        unfold prodIO'; split
+        · split <;> rfl
+        · rfl
+      cases e with
+      | connect => simp only []; split <;> first | rfl | exact hdo t _
+      | feed f =>
+        simp only [feed]
+        split
+        · rfl
+        · split
+          · exact hpi t
+          · exact hpi t
+      | readFault => simp only []; split <;> rfl
+      | setDrain m => simp only []; split <;> rfl
+      | setClose m => simp only []; split <;> rfl
+      | enq n => rfl
+      | park x => cases x <;> rfl
+      | close =>
+        simp only [closeEv]
+        split
+        · rfl
+        · simp only [beginJoin, hla]
+          unfold cancelConn; split <;> rfl
+      | advance dt => simp only []; split <;> rfl
+      | tick k =>
+        simp only []
+        unfold fire
+        split
+        · rfl
+        · split
+          · rfl
+          · cases k with
+            | readTO => rfl
+            | writeTO => exact hla _
+            | wcloseTO => exact hri _
+            | openTO =>
+              simp only []
+              split
+              · unfold openFailed; split <;> rfl
+              · rfl
+            | backoffEnd => exact hdo _ _
+            | setup a =>
+              show (fireSetup t a).1.rcOn = _
+              unfold fireSetup; split
+              · rfl
+              · split
+                · split <;> rfl
+                · rfl
+            | cwcloseTO => simp only []; split <;> rfl
+      | prodStart => simp only []; split <;> first | rfl | exact hpi t
+      | lostRun =>
+        simp only [lostRun]
+        split
+        · rfl
+        · split
+          · rfl
+          · split
+            · exact hlf _
+            · rfl
+      | lostRun2 =>
+        simp only [lostRun2]
+        split
+        · rfl
+        · exact hlf _
+      | shutdownRun =>
+        simp only [shutdownRun]
+        split
+        · split
+          · simp only [shutdownTail, closeWriter_fst'']
+            split <;> rfl
+          · rfl
+        · rfl
+      | setupGo => show (setupGo t).1.rcOn = _; unfold setupGo; split <;> rfl
+      | gate a => exact hfr _ _ (frames_gateEv t a)
+      | release => exact hfr _ _ (frames_release t)
+      | take => exact hfr _ _ (frames_take t)
+  induction es generalizing s with
+  | nil => rfl
+  | cons e es ih => simp only [run]; rw [ih, one]
+
+/-- **the reconnect routine is invoked exactly once per loss, over whole histories** (reconnect
+enabled): along any run without close(), the `_open_connection` calls made by the loss handling
+itself (first attempts; retries after a back-off and the user's connect() are not counted) plus
+the handlers still waiting in a hung `wait_closed()` at the end equal the transports closed
+plus the handlers waiting at the start - one first attempt per closed transport, i.e. per loss
+(`one_close_per_loss`) -/
+theorem one_reconnect_per_loss {s : St} (h : Reachable s) (hcl : s.closing = .no) (hrc : s.rcOn = true)
+    (es : List Ev) (hne : Ev.close ∉ es) :
+    nInvoke s es + pendW (run s es).1 = nWclose (outs (run s es)) + pendW s := by
+  induction es generalizing s with
+  | nil => simp [nInvoke, outs, run, nWclose]
+  | cons e es ih =>
+    have hne1 : e ≠ .close := fun he => hne (he ▸ List.mem_cons_self ..)
+    have hne2 : Ev.close ∉ es := fun he => hne (List.mem_cons_of_mem _ he)
+    have b := step_invoke h.inv h.winv hcl hrc e hne1
+    have hb := step_balance h.inv h.winv hcl e hne1
+    have hr : Reachable (step s e).1 := by have := h.run [e]; simpa [run] using this
+    have hrc' : (step s e).1.rcOn = true := by
+      have := rcOn_run s [e]; simp only [run] at this; rw [this]; exact hrc
+    have i := ih hr (by rw [hb.closing, hcl]) hrc' hne2
+    rw [outs_run_cons, nWclose_append]
+    have : (run s (e :: es)).1 = (run (step s e).1 es).1 := by simp [run]
+    rw [this]
+    simp only [nInvoke]
+    omega
+
+/-! ### the frame consumers: never more than configured, always replaced, no frame lost -/
+
+/-- **no consumer is ever started beyond `consumers_count`**, and no more frames are in the
+consumers' hands than there are consumers - in every reachable state, whatever the number of
+loss / reconnect cycles and wherever the losses hit (subsumes the no-growth clause for consumers) -/
+theorem consumers_bounded {s : St} (h : Reachable s) : s.consumers ≤ s.cfg ∧ s.hand.length ≤ s.consumers :=
+  ⟨h.inv.cons_le, h.cinv.hand_le⟩
+
+/-- **consumers that exited while the link was down are replaced**: whenever the protocol is
+connected exactly `consumers_count` frame consumers are alive (parked or holding a frame) - the
+establishment prunes the finished ones and starts the missing ones (`reestablished`), and while
+connected none exits -/
+theorem consumers_topped_up {s : St} (h : Reachable s) (hc : s.connected = true) : s.consumers = s.cfg :=
+  h.cinv.conn_full hc
+
+/-- a consumer exits only by finishing a frame while the protocol is not connected -/
+theorem consumer_exits_only_disconnected (s : St) (f : Feed) (hc : s.connected = true) :
+    (finishFrame s f).1.consumers = s.consumers := by
+  cases hf : f.addr? with
+  | none => simp [finishFrame, hf]
+  | some p =>
+    have := (finishFrame_fields s f p.1 p.2 hf).2.2.2.2.2
+    rw [this]; simp [hc]
+
+/-- **the read queue's unfinished counter** is exactly the frames queued plus the frames in the
+consumers' hands, in every reachable state -/
+theorem read_balance {s : St} (h : Reachable s) : s.rUnf = s.readQ.length + s.hand.length := h.cinv.bal
+
+/-- **every frame handed over by the producer reaches the device object of its address, and no
+other**: along any run without `shutdown()`, for every address `a` and kind `k`: frames put on
+the read queue + frames pending at the start = frames delivered to device `a` + frames still
+pending (queued or in a consumer's hand) at the end.  Nothing is lost, duplicated or delivered
+under another address; the device map itself never changes (`device_map_stable`). -/
+theorem frames_reach_same_device {s : St} (h : Reachable s) (es : List Ev) (hne : Ev.shutdownRun ∉ es) (a k : Nat) :
+    nPut a k (outs (run s es)) + pendF s a k = nDel a k (outs (run s es)) + pendF (run s es).1 a k := by
+  induction es generalizing s with
+  | nil => rfl
+  | cons e es ih =>
+    have hne1 : e ≠ .shutdownRun := fun he => hne (he ▸ List.mem_cons_self ..)
+    have hne2 : Ev.shutdownRun ∉ es := fun he => hne (List.mem_cons_of_mem _ he)
+    have b := step_frames h.cinv e hne1 a k
+    have hr : Reachable (step s e).1 := by have := h.run [e]; simpa [run] using this
+    have i := ih hr hne2
+    unfold FrBal at b
+    rw [outs_run_cons]
+    have : (run s (e :: es)).1 = (run (step s e).1 es).1 := by simp [run]
+    rw [this]
+    simp only [nPut, nDel, List.countP_append] at b i ⊢
+    omega
+
+/-- ... and nothing stays pending: at a quiescent point of a connected protocol whose
+subscribers have all returned, the read queue is empty - every frame received so far has been
+delivered (with `frames_reach_same_device`: delivered = put) -/
+theorem frames_delivered_at_rest {s : St} (h : Reachable s) (hc : s.connected = true) (hcfg : s.cfg ≥ 1)
+    (hh : s.hand = []) (hq : internal? s = none) (hnd : isDone s.closing = false) : s.readQ = [] ∧ s.rUnf = 0 := by
+  have hcons := consumers_topped_up h hc
+  have hidle : idle s > 0 := by unfold idle; rw [hh, hcons]; simp; omega
+  have hrq : s.readQ = [] := by
+    cases hr : s.readQ with
+    | nil => rfl
+    | cons f rest =>
+      have h1 : s.readQ ≠ [] := by rw [hr]; simp
+      simp only [internal?, hnd, Bool.false_eq_true, ↓reduceIte, h1, hidle, ne_eq, not_false_eq_true, true_and] at hq
+      split at hq
+      · cases hq
+      · split at hq
+        · cases hq
+        · split at hq
+          · cases hq
+          · split at hq
+            · cases hq
+            · split at hq
+              · cases hq
+              · simp at hq
+  refine ⟨hrq, ?_⟩
+  rw [read_balance h, hrq, hh]; rfl
+
 /-! ### the scheduler the harness is compared with is a schedule of micro events -/
 
 /-- what the driver computes for a harness-level event ("one external event, then the library
@@ -499,7 +953,7 @@ theorem reachable_hstep {s : St} (hr : Reachable s) (h : HEv) : Reachable (hstep
 /-- connect, password frame (creates the ecoMAX device), sensor data (mixer 0 / thermostat 0,
 starts the set-up requests), then the stream breaks -/
 def exLossEvs : List Ev :=
-  [.connect, .prodStart, .feed (.pw 69), .feed (.sensors 1 1), .setupGo, .feed .foreign, .readFault]
+  [.connect, .prodStart, .feed (.pw 69), .take, .feed (.sensors 1 1), .take, .setupGo, .feed .foreign, .readFault]
 
 def exLoss : St := (run (init 3 true [.ok .ok .ok, .err, .hang, .ok .ok .ok]) exLossEvs).1
 
@@ -529,11 +983,31 @@ example :
 /-- hypotheses of `retry_until_success` (k = 2): lost, first attempt failed, two more failures
 scripted, then success; no set-up round in progress -/
 def exRetry : St :=
-  (run (init 3 true [.ok .ok .ok, .err, .err, .err, .ok .ok .ok]) [.connect, .prodStart, .feed (.pw 69), .readFault, .lostRun, .lostRun2]).1
+  (run (init 3 true [.ok .ok .ok, .err, .err, .err, .ok .ok .ok]) [.connect, .prodStart, .feed (.pw 69), .take, .readFault, .lostRun, .lostRun2]).1
 
 example : Reachable exRetry := ⟨3, true, _, _, rfl⟩
 example : early exRetry.closing = true ∧ exRetry.recon = .backoff 20000 .proto ∧
     exRetry.script = List.replicate 2 .err ++ (.ok .ok .ok :: []) := by decide
 example : NoSetupTimers exRetry := by intro d hd; have : d ∈ exRetry.devices := hd; revert d; decide
+
+
+/-- a loss that catches all three consumers in the middle of a frame: four frames of a new
+device (ecoSTER) while a subscriber of its device-name event does not return; the link breaks,
+the reconnect attempt fails; the subscriber returns while the link is down -/
+def exGated : St :=
+  (run (init 3 true [.ok .ok .ok, .err, .ok .ok .ok])
+    [.connect, .prodStart, .feed (.pw 69), .take, .gate 81, .feed (.pw 81), .take, .feed (.pw 81), .take,
+     .feed (.pw 81), .take, .feed (.pw 81), .readFault, .lostRun, .lostRun2, .release]).1
+
+example : Reachable exGated := ⟨3, true, _, _, rfl⟩
+/-- all three consumers have exited, one frame is still queued -/
+example : exGated.connected = false ∧ exGated.consumers = 0 ∧ exGated.readQ.length = 1 ∧ exGated.rUnf = 1 ∧
+    exGated.hand = [] := by decide
+/-- after the back-off the connection is re-established with three consumers again, which
+deliver the queued frame and the next one to the same ecoSTER entry -/
+example :
+    let r := run exGated [.advance 20000, .tick .backoffEnd, .prodStart, .take, .feed (.pw 81), .take]
+    r.1.connected = true ∧ r.1.consumers = 3 ∧ r.1.readQ = [] ∧ r.1.rUnf = 0 ∧ addrs r.1 = [69, 81] ∧
+    nPut 81 186 (outs r) = 1 ∧ nDel 81 186 (outs r) = 2 ∧ pendF exGated 81 186 = 1 := by decide
 
 end PlumVerif.C11
